@@ -12,7 +12,8 @@ RULE = ("cases: a history `add` (build and submit a transaction spending confirm
         "limit); 1-parent-1-child package replacing a transaction. Candidates double-spend one input of each chosen target, optionally "
         "add fresh coins, optionally spend an output of an unrelated / an evicted transaction; candidate fee at (sum of evicted "
         "MODIFIED fees + ceil(100*vsize/1000)) -1/0/+1, the same with BASE fees, the same with the evicted size instead of its own, "
-        "and well above. Observed: mempool (modified fee, vsize) before, GetFeerateDiagram before/after, result, replaced list, "
+        "and well above; plus a cheap large surviving parent whose evicted child is smaller than the candidate, with candidate fees "
+        "across [evicted fees + incr(evicted size), evicted fees + incr(own size)]. Observed: mempool (modified fee, vsize) before, GetFeerateDiagram before/after, result, replaced list, "
         "mempool after. Non-trivial: the candidate has at least one direct conflict; distinct = distinct case lines.")
 ASSUMPTIONS = ["the node's acceptance logic is NOT modelled as a whole: every ACCEPTED replacement observed is checked by rbf_accept_ok "
                "(soundness proved: evicted set = descendant closure of direct conflicts incl. TRUC sibling, fee >= evicted modified "
@@ -187,6 +188,30 @@ def gen_truc(rng, out):
     out.append(" ; ".join(h.ops() + [h.line(cand, "rbf")]))
 
 
+def gen_lowparent(rng, out):
+    """a cheap large parent P whose child E pays for it; the candidate N (larger than E) conflicts with E only.
+    P survives as a low-feerate chunk, so the diagram can improve although N adds less than the incremental
+    fee for its OWN size (only the rule on the additional fee stops it)."""
+    h = Hist()
+    pn = rng.choice([6, 8, 10])
+    pvs = vsize(1, pn, 0)
+    h.add("p", 2, pvs // 10 + rng.choice([1, 2, 5]), pn, 0, [h.coin()])
+    k = h.coin()
+    efee = rng.choice([1000, 1500, 4000])
+    e = h.add("e", 2, efee, 1, 0, [("p", 0), k])
+    if rng.random() < 0.3:
+        e["prio"] = rng.choice([200, -100])
+    ins = [k]
+    nout = rng.choice([4, 5, 6, 8])
+    cvs = vsize(1, nout, 0)
+    evs = vsize(2, 1, 0)
+    mod = efee + e["prio"]
+    lo, hi = mod + incr_fee(evs), mod + incr_fee(cvs)
+    for fee in sorted({lo - 1, lo, lo + 1, (lo + hi) // 2, hi - 2, hi - 1, hi, hi + 1}):
+        cand = dict(name="new", ver=2, fee=fee, nout=nout, pad=0, ins=ins)
+        out.append(" ; ".join(h.ops() + [h.line(cand, "rbf")]))
+
+
 def gen_many(rng, out, n):
     h = Hist()
     ins = []
@@ -236,6 +261,8 @@ def gen(rng, tier):
         gen_truc(rng, out)
     for _ in range(30 * k):
         gen_pkg(rng, out)
+    for _ in range(25 * k):
+        gen_lowparent(rng, out)
     for n in (99, 100, 101, 102):
         gen_many(rng, out, n)
     return out
